@@ -175,8 +175,6 @@ def InvS (rd : Reader) (S : Sums) : Prop :=
   (∀ c, tGet rd.players c = (S.pos c).map wrapPos) ∧
   (∀ c, tGet rd.inputs c = (S.inp c).map (fun v => v.map wrap32))
 
-def reported (its : List Item) : List Item := its.filter (fun it => !isTick it)
-
 theorem reported_ticks {its : List Item} (h : its.all isTick = true) (b : List Item) :
     reported (its ++ b) = reported b := by
   unfold reported
